@@ -25,6 +25,7 @@ import (
 	"github.com/jech/galene/ice"
 	"github.com/jech/galene/token"
 	"github.com/jech/galene/unbounded"
+	"github.com/jech/galene/verifhook"
 )
 
 func errorToWSCloseMessage(id string, err error) (*clientMessage, []byte) {
@@ -508,6 +509,7 @@ outer2:
 	defer func() {
 		for _, t := range conn.tracks {
 			layer := t.getLayerInfo()
+			verifhook.At("rtpconn.replaceTracks.loaded", t)
 			layer.limitSid = limitSid
 			if limitSid {
 				layer.wantedSid = 0
